@@ -32,9 +32,10 @@ VARIABLES
     tpc,        \* timer pc per id
     cb,         \* invocations of the user callback per id
     dups,       \* duplicate ack packets a hostile peer sent
-    sbLocked    \* sendBufferMu left locked (only with PurgeCrash)
+    sbLocked,   \* sendBufferMu left locked (only with PurgeCrash)
+    epc         \* emit pc per id: "idle" | "reg" | "out"
 
-vars == <<emitted, acks, called, timedOut, sendBuf, connected, sent, rpc, tpc, cb, dups, sbLocked>>
+vars == <<emitted, acks, called, timedOut, sendBuf, connected, sent, rpc, tpc, cb, dups, sbLocked, epc>>
 
 Init ==
     /\ emitted = {} /\ acks = {} /\ sent = {}
@@ -42,20 +43,34 @@ Init ==
     /\ sendBuf = <<>> /\ connected \in BOOLEAN
     /\ rpc = [i \in Ids |-> "idle"] /\ tpc = [i \in Ids |-> "idle"]
     /\ cb = [i \in Ids |-> <<>>] /\ dups = 0 /\ sbLocked = FALSE
+    /\ epc = [i \in Ids |-> "idle"]
 
 Frames(id, n) == [k \in 1..n |-> <<id, k>>]
 Without(buf, id) == SelectSeq(buf, LAMBDA f : f[1] # id)
 CountOf(buf, id) == Len(SelectSeq(buf, LAMBDA f : f[1] = id))
 
-\* Emit with an ack function: register the handler, then send or buffer all frames at once
-Emit(id, n) ==
-    /\ id \notin emitted /\ ~sbLocked
+\* Emit with an ack function, step 1: registerAckHandler (under acksMu); the timer starts
+Register(id) ==
+    /\ id \notin emitted
     /\ emitted' = emitted \cup {id}
     /\ acks' = acks \cup {id}
     /\ tpc' = [tpc EXCEPT ![id] = IF WithTimeout THEN "sleep" ELSE "none"]
-    /\ IF connected THEN sent' = sent \cup {id} /\ UNCHANGED sendBuf
-                    ELSE sendBuf' = sendBuf \o Frames(id, n) /\ UNCHANGED sent
-    /\ UNCHANGED <<called, timedOut, connected, rpc, cb, dups, sbLocked>>
+    /\ epc' = [epc EXCEPT ![id] = "reg"]
+    /\ UNCHANGED <<called, timedOut, sendBuf, connected, sent, rpc, cb, dups, sbLocked>>
+
+\* step 2a: connected (or connect pending) - all frames go to the packet queue at once
+Send(id) ==
+    /\ epc[id] = "reg" /\ connected
+    /\ sent' = sent \cup {id}
+    /\ epc' = [epc EXCEPT ![id] = "out"]
+    /\ UNCHANGED <<emitted, acks, called, timedOut, sendBuf, connected, rpc, tpc, cb, dups, sbLocked>>
+
+\* step 2b: not connected - all frames are appended to the offline buffer (under sendBufferMu)
+Buffer(id, n) ==
+    /\ epc[id] = "reg" /\ ~connected /\ ~sbLocked
+    /\ sendBuf' = sendBuf \o Frames(id, n)
+    /\ epc' = [epc EXCEPT ![id] = "out"]
+    /\ UNCHANGED <<emitted, acks, called, timedOut, connected, sent, rpc, tpc, cb, dups, sbLocked>>
 
 \* CONNECT reply: emitBuffered flushes the offline frames in order
 Connect ==
@@ -63,24 +78,24 @@ Connect ==
     /\ connected' = TRUE
     /\ sent' = sent \cup {sendBuf[k][1] : k \in 1..Len(sendBuf)}
     /\ sendBuf' = <<>>
-    /\ UNCHANGED <<emitted, acks, called, timedOut, rpc, tpc, cb, dups, sbLocked>>
+    /\ UNCHANGED <<emitted, acks, called, timedOut, rpc, tpc, cb, dups, sbLocked, epc>>
 
 Disconnect ==
     /\ connected /\ connected' = FALSE
-    /\ UNCHANGED <<emitted, acks, called, timedOut, sendBuf, sent, rpc, tpc, cb, dups, sbLocked>>
+    /\ UNCHANGED <<emitted, acks, called, timedOut, sendBuf, sent, rpc, tpc, cb, dups, sbLocked, epc>>
 
 \* the peer calls the ack function of the event it received (one-reply guard: sendAck)
 PeerAck(id) ==
     /\ id \in sent /\ rpc[id] = "idle"
     /\ rpc' = [rpc EXCEPT ![id] = "inflight"]
-    /\ UNCHANGED <<emitted, acks, called, timedOut, sendBuf, connected, sent, tpc, cb, dups, sbLocked>>
+    /\ UNCHANGED <<emitted, acks, called, timedOut, sendBuf, connected, sent, tpc, cb, dups, sbLocked, epc>>
 
 \* a hostile peer repeats an ack packet
 DupAck(id) ==
     /\ dups < MaxDup /\ rpc[id] = "done"
     /\ dups' = dups + 1
     /\ rpc' = [rpc EXCEPT ![id] = "inflight"]
-    /\ UNCHANGED <<emitted, acks, called, timedOut, sendBuf, connected, sent, tpc, cb, sbLocked>>
+    /\ UNCHANGED <<emitted, acks, called, timedOut, sendBuf, connected, sent, tpc, cb, sbLocked, epc>>
 
 \* onAck: lookup and delete under acksMu
 Lookup(id) ==
@@ -90,25 +105,25 @@ Lookup(id) ==
               /\ acks' = IF "NoDelete" \in Dev THEN acks ELSE acks \ {id}
          ELSE /\ rpc' = [rpc EXCEPT ![id] = "done"]      \* "ACK with ID not found" -> error handlers
               /\ UNCHANGED acks
-    /\ UNCHANGED <<emitted, called, timedOut, sendBuf, connected, sent, tpc, cb, dups, sbLocked>>
+    /\ UNCHANGED <<emitted, called, timedOut, sendBuf, connected, sent, tpc, cb, dups, sbLocked, epc>>
 
 \* ackHandler.call: decide under h.mu
 CallDecide(id) ==
     /\ rpc[id] = "found"
     /\ IF timedOut[id] THEN rpc' = [rpc EXCEPT ![id] = "done"] /\ UNCHANGED called
                        ELSE rpc' = [rpc EXCEPT ![id] = "run"] /\ called' = [called EXCEPT ![id] = TRUE]
-    /\ UNCHANGED <<emitted, acks, timedOut, sendBuf, connected, sent, tpc, cb, dups, sbLocked>>
+    /\ UNCHANGED <<emitted, acks, timedOut, sendBuf, connected, sent, tpc, cb, dups, sbLocked, epc>>
 
 CallInvoke(id) ==
     /\ rpc[id] = "run"
     /\ cb' = [cb EXCEPT ![id] = Append(@, "reply")]
     /\ rpc' = [rpc EXCEPT ![id] = "done"]
-    /\ UNCHANGED <<emitted, acks, called, timedOut, sendBuf, connected, sent, tpc, dups, sbLocked>>
+    /\ UNCHANGED <<emitted, acks, called, timedOut, sendBuf, connected, sent, tpc, dups, sbLocked, epc>>
 
 \* timer goroutine: time.Sleep returns
 TimerWake(id) ==
     /\ tpc[id] = "sleep" /\ tpc' = [tpc EXCEPT ![id] = "woken"]
-    /\ UNCHANGED <<emitted, acks, called, timedOut, sendBuf, connected, sent, rpc, cb, dups, sbLocked>>
+    /\ UNCHANGED <<emitted, acks, called, timedOut, sendBuf, connected, sent, rpc, cb, dups, sbLocked, epc>>
 
 \* decide under h.mu
 TimerDecide(id) ==
@@ -116,36 +131,42 @@ TimerDecide(id) ==
     /\ IF called[id] /\ "NoCalledCheck" \notin Dev
          THEN tpc' = [tpc EXCEPT ![id] = "done"] /\ UNCHANGED timedOut
          ELSE tpc' = [tpc EXCEPT ![id] = "won"] /\ timedOut' = [timedOut EXCEPT ![id] = TRUE]
-    /\ UNCHANGED <<emitted, acks, called, sendBuf, connected, sent, rpc, cb, dups, sbLocked>>
+    /\ UNCHANGED <<emitted, acks, called, sendBuf, connected, sent, rpc, cb, dups, sbLocked, epc>>
 
-\* timeoutFunc: delete from acks (acksMu), drop exactly this id's offline frames (sendBufferMu)
-TimerPurge(id) ==
-    /\ tpc[id] = "won" /\ ~sbLocked
+\* timeoutFunc, first critical section: delete from acks (acksMu)
+PurgeAcks(id) ==
+    /\ tpc[id] = "won"
     /\ acks' = acks \ {id}
+    /\ tpc' = [tpc EXCEPT ![id] = "won2"]
+    /\ UNCHANGED <<emitted, called, timedOut, sendBuf, connected, sent, rpc, cb, dups, sbLocked, epc>>
+
+\* second critical section: drop exactly this id's offline frames (sendBufferMu)
+PurgeBuf(id) ==
+    /\ tpc[id] = "won2" /\ ~sbLocked
     /\ IF "PurgeCrash" \in Dev /\ CountOf(sendBuf, id) >= 2
          THEN /\ tpc' = [tpc EXCEPT ![id] = "crashed"] /\ sbLocked' = TRUE
               /\ UNCHANGED sendBuf
          ELSE /\ tpc' = [tpc EXCEPT ![id] = "purged"] /\ sendBuf' = Without(sendBuf, id)
               /\ UNCHANGED sbLocked
-    /\ UNCHANGED <<emitted, called, timedOut, connected, sent, rpc, cb, dups>>
+    /\ UNCHANGED <<emitted, acks, called, timedOut, connected, sent, rpc, cb, dups, epc>>
 
 TimerInvoke(id) ==
     /\ tpc[id] = "purged"
     /\ cb' = [cb EXCEPT ![id] = Append(@, "timeout")]
     /\ tpc' = [tpc EXCEPT ![id] = "done"]
-    /\ UNCHANGED <<emitted, acks, called, timedOut, sendBuf, connected, sent, rpc, dups, sbLocked>>
+    /\ UNCHANGED <<emitted, acks, called, timedOut, sendBuf, connected, sent, rpc, dups, sbLocked, epc>>
 
 Next ==
-    \/ \E id \in Ids, n \in 1..MaxFrames : Emit(id, n)
+    \/ \E id \in Ids : Register(id) \/ Send(id) \/ \E n \in 1..MaxFrames : Buffer(id, n)
     \/ Connect \/ Disconnect
     \/ \E id \in Ids : PeerAck(id) \/ DupAck(id) \/ Lookup(id) \/ CallDecide(id) \/ CallInvoke(id)
-                       \/ TimerWake(id) \/ TimerDecide(id) \/ TimerPurge(id) \/ TimerInvoke(id)
+                       \/ TimerWake(id) \/ TimerDecide(id) \/ PurgeAcks(id) \/ PurgeBuf(id) \/ TimerInvoke(id)
 
 Spec == Init /\ [][Next]_vars
 
 Fairness == \A id \in Ids :
     /\ WF_vars(Lookup(id)) /\ WF_vars(CallDecide(id)) /\ WF_vars(CallInvoke(id))
-    /\ WF_vars(TimerWake(id)) /\ WF_vars(TimerDecide(id)) /\ WF_vars(TimerPurge(id)) /\ WF_vars(TimerInvoke(id))
+    /\ WF_vars(TimerWake(id)) /\ WF_vars(TimerDecide(id)) /\ WF_vars(PurgeAcks(id)) /\ WF_vars(PurgeBuf(id)) /\ WF_vars(TimerInvoke(id))
 FairSpec == Spec /\ Fairness
 
 (***************************************************************************)
@@ -162,11 +183,13 @@ RightOutcome == \A id \in Ids :
     /\ (cb[id] # <<>> /\ cb[id][1] = "timeout") => timedOut[id]
 
 \* the purge removes exactly the frames of its own id and keeps the order of the rest
-PurgeExact == [][\A id \in Ids : (tpc[id] = "won" /\ tpc'[id] = "purged") => sendBuf' = Without(sendBuf, id)]_vars
+PurgeExact == [][\A id \in Ids : (tpc[id] = "won2" /\ tpc'[id] = "purged") => sendBuf' = Without(sendBuf, id)]_vars
 
 \* nothing stays locked, the socket stays usable
 NoLockLeft == ~sbLocked
 
-\* a timed-out ack no longer has an entry or offline frames
-PurgedClean == \A id \in Ids : tpc[id] \in {"purged", "done"} /\ timedOut[id] => id \notin acks /\ CountOf(sendBuf, id) = 0
+\* a timed-out ack no longer has an entry (its offline frames are dropped by the
+\* purge - PurgeExact; frames buffered *after* the purge, possible only with a
+\* time-out shorter than the emit itself, are not covered by C03)
+PurgedClean == \A id \in Ids : tpc[id] \in {"purged", "done"} /\ timedOut[id] => id \notin acks
 =============================================================================
